@@ -1,22 +1,35 @@
-// Replay of the FINDING of unit ids_attrs on the real crate (public API only).  Not part of the Verus unit.
+// Replay of the (REPAIRED) defect documented in unit ids_attrs on the real crate (public API only).  Not part of the Verus unit.
 // Build as the `src/main.rs` of a scratch crate OUTSIDE /repo and /verif whose Cargo.toml has `[workspace]`, a `[[bin]]` and
 // `yrs = { path = "/repo/yrs" }` (copy /verif/witness/Cargo.lock next to it):
 //   cargo build --offline --target-dir /verif/.cache/witness-target && /verif/.cache/witness-target/debug/<bin>
-// Output on the current tree (2026-09-26):
+//
+// BEFORE the repair (eq = len equal && self subset of other; tree 47d63c6):
 //   [a,a] == [a,b] : true
 //   [a,b] == [a,a] : false
-//   m1 = [0,3):[a,a] then [3,6):[a,b]  client ClientID(1) [0..6) ["a", "a"];
+//   m1 = [0,3):[a,a] then [3,6):[a,b]  client ClientID(1) [0..6) ["a", "a"];                 <- coalesced, attribute b lost
 //   m2 = [3,6):[a,b] then [0,3):[a,a]  client ClientID(1) [0..6) ["a", "a"];
 //   m1 == m2 : true   m2 == m1 : true
 //   m3 = [0,3):[a] then [3,6):[a,b]    client ClientID(1) [0..3) ["a"]; client ClientID(1) [3..6) ["a", "b"];
 //   m1 == m3 : false   m3 == m1 : false
 //   attrs at clock 4: m1 ["a", "a"]  m2 ["a", "a"]  m3 ["a", "b"]
 //   p=[0,3):[a,a]  q=[0,3):[a,b]   p == q : true   q == p : false
-//   p.intersect_with(q)                client ClientID(1) [0..3) ["a", "a", "b"];
-//   q.intersect_with(p)                client ClientID(1) [0..3) ["a", "b"];
+//   p.intersect_with(q) [0..3) ["a", "a", "b"];   q.intersect_with(p) [0..3) ["a", "b"];
 //   p∩q == q∩p : false   q∩p == p∩q : false
-//   from_set({0..3}, [a,b,a])          client ClientID(1) [0..3) ["a", "b", "a"];
-//   from_set([a,b,a]) == from_set([a,b]) : false   reverse : false
+//   from_set({0..3}, [a,b,a]) [0..3) ["a", "b", "a"];   from_set([a,b,a]) == from_set([a,b]) : false   reverse : false
+//
+// AFTER the repair (eq = mutual containment; /repo commit 6236824):
+//   [a,a] == [a,b] : false
+//   [a,b] == [a,a] : false
+//   m1 = [0,3):[a,a] then [3,6):[a,b]  client ClientID(1) [0..3) ["a", "a"]; client ClientID(1) [3..6) ["a", "b"];
+//   m2 = [3,6):[a,b] then [0,3):[a,a]  client ClientID(1) [0..3) ["a", "a"]; client ClientID(1) [3..6) ["a", "b"];
+//   m1 == m2 : true   m2 == m1 : true
+//   m3 = [0,3):[a] then [3,6):[a,b]    client ClientID(1) [0..3) ["a"]; client ClientID(1) [3..6) ["a", "b"];
+//   m1 == m3 : true   m3 == m1 : true
+//   attrs at clock 4: m1 ["a", "b"]  m2 ["a", "b"]  m3 ["a", "b"]
+//   p=[0,3):[a,a]  q=[0,3):[a,b]   p == q : false   q == p : false
+//   p.intersect_with(q) [0..3) ["a", "a", "b"];   q.intersect_with(p) [0..3) ["a", "b"];
+//   p∩q == q∩p : true   q∩p == p∩q : true
+//   from_set({0..3}, [a,b,a]) [0..3) ["a", "b", "a"];   from_set([a,b,a]) == from_set([a,b]) : true   reverse : true
 //   m1.as_id_set() == m2.as_id_set() : true
 use yrs::block::{BlockRange, ClientID};
 use yrs::{ContentAttribute, ContentAttributes, IdMap, IdSet, ID};
